@@ -813,6 +813,8 @@ pub struct Consumer {
     pub dropped: Option<u64>,
     /// only the notification reader was dropped (the consumer goes on writing commands)
     pub reader_dropped: Option<u64>,
+    /// only the command writer was dropped (the consumer goes on listening)
+    pub writer_dropped: Option<u64>,
     /// latest read attempt that found nothing while no byte had ever arrived: up to that instant the
     /// runtime had written nothing at all to this consumer
     pub last_empty_read: Option<u64>,
@@ -821,6 +823,14 @@ pub struct Consumer {
 }
 
 impl Consumer {
+    /// The consumer closes its command channel but keeps listening (an event-only subscriber).
+    pub fn drop_writer(&mut self) {
+        if self.dropped.is_none() && self.writer_dropped.is_none() {
+            self.writer_dropped = Some(self.clock.tick());
+            self.output.close();
+        }
+    }
+
     /// The consumer stops listening but keeps its command channel.
     pub fn drop_reader(&mut self) {
         if self.dropped.is_none() && self.reader_dropped.is_none() {
@@ -985,6 +995,8 @@ pub struct Rt {
     pub idle_at: Vec<u64>,
     pub polls: u64,
     pub advanced_ms: u64,
+    /// instants at which `settle` reached its fixpoint with the runtime still running
+    pub settled_alive_at: Vec<u64>,
 }
 
 pub const NODE: &str = "/node";
@@ -1081,6 +1093,7 @@ impl Rt {
             idle_at: vec![],
             polls: 0,
             advanced_ms: 0,
+            settled_alive_at: vec![],
         }
     }
 
@@ -1171,6 +1184,7 @@ impl Rt {
             sent: vec![],
             dropped: None,
             reader_dropped: None,
+            writer_dropped: None,
             last_empty_read: None,
             eof: None,
             decode_error: None,
@@ -1206,6 +1220,9 @@ impl Rt {
                 progress += c.read(usize::MAX);
             }
             if progress == 0 && !(self.sys.is_some() && self.is_woken()) {
+                if self.sys.is_some() {
+                    self.settled_alive_at.push(self.clock.tick());
+                }
                 break;
             }
             if rounds > 100_000 {
